@@ -44,6 +44,10 @@ func genC13(t *rapid.T) c13Case {
 			c.Stack.Evict = rapid.Bool().Draw(t, "evict")
 		}
 		bound = int64(c.Stack.effTimeout())
+		if c.Stack.Kind == "queue" && rapid.IntRange(0, 5).Draw(t, "noTimeout") == 0 {
+			// a negative backlog timeout arms no timer at all: only cancellation (with eviction) bounds the wait
+			c.Stack.TimeoutNs, bound = rapid.SampledFrom([]int64{-1, -1_000_000_000}).Draw(t, "negTimeout"), -1
+		}
 	case "deadline":
 		// before / at / after the arrival
 		rel := rapid.SampledFrom(append([]int64{0, -1, -1_000_000}, durs...)).Draw(t, "deadline-rel")
@@ -167,7 +171,7 @@ func runC13InBubble(c c13Case) (out kit.Outcome) {
 		synctest.Wait()
 	}
 	// let every bound pass
-	horizon := A + c.Stack.effTimeout() + time.Duration(maxI64(c.Stack.DeadlineNs, 0)) + 2*time.Second
+	horizon := A + time.Duration(maxI64(int64(c.Stack.effTimeout()), 0)) + time.Duration(maxI64(c.Stack.DeadlineNs, 0)) + 2*time.Second
 	if c.Stack.DeadlineFar > 0 {
 		horizon = A + 12*time.Second
 	}
@@ -204,7 +208,9 @@ func runC13InBubble(c c13Case) (out kit.Outcome) {
 	cancelApplies := kind == "blocking" || kind == "deadline" || (kind == "queue" && c.Stack.Evict)
 	switch kind {
 	case "queue", "fifo-dep", "lifo-dep":
-		setBound(A+c.Stack.effTimeout(), "backlog timeout")
+		if c.Stack.TimeoutNs >= 0 {
+			setBound(A+c.Stack.effTimeout(), "backlog timeout")
+		}
 	case "deadline":
 		setBound(D, "deadline")
 	}
